@@ -16,8 +16,10 @@ NoRun == [op |-> "none"]
 
 MCKindSet == {"union"}
 MCTypeOptSet(k) ==
-  { [DefOpts EXCEPT !.traits = <<"Debug", "PartialEq", "Eq", "Hash", "Clone", "Copy">>, !.dname = n] :
-       n \in {"default", "off", "custom"} }
+  \* repr "C": typed members only (the bytes beyond the largest member are padding, yet they belong to the value:
+  \* size_of::<Self>() bytes are shown, compared and hashed); "none": with a full-size byte-array member
+  { [DefOpts EXCEPT !.traits = <<"Debug", "PartialEq", "Eq", "Hash", "Clone", "Copy">>, !.dname = n, !.repr = r] :
+       n \in {"default", "off", "custom"}, r \in {"none", "C"} }
 MCVarOptSet(c) == { [DefVariant EXCEPT !.style = "named"] }
 MCFieldSet(c) == { [DefField EXCEPT !.ty = t] : t \in UnionTypes }
 MCAdmissible(c) == TRUE
